@@ -48,7 +48,7 @@ def obligations(tier, ctx):
         obs.append(Ob(name=f"undrained_n{n}", params=[("cap", "int"), ("r", "int"), ("e", "bool")], pre=["0 <= cap <= 4", "0 <= r <= 4"] + (["r == 1"] if tier == "quick" else []),
                       call=f"H.conversation_undrained({n}, cap, r, e)", backend="F", timeout=600, family="the stdio client's notification side stream is never read (symbolic capacity 0..4)"))
     from symcheck import consts as _c
-    clim = 110 if tier == "quick" else 1100
+    clim = 110 if tier == "quick" else 410
     obs.append(Ob(name="many_notifications", params=[("k", "int")], pre=[f"0 <= k < {len(_c.size_cases(clim))}"], call=f"H.conversation_many(k, 100, {clim})", backend="P", timeout=1200,
                   family="count: c-1, c, c+1 notifications before the response, notification side stream of capacity 100 never read"))
     from symcheck import consts
